@@ -156,11 +156,25 @@ fn with<R>(f: impl FnOnce(&mut State) -> R) -> R {
 
 /// Forget everything, including the shadow heap.
 pub fn reset_all() {
-    with(|s| {
+    let dead = with(|s| {
+        let dead = quarantined(s);
         let cb = s.gc_cb.take();
         *s = State::new();
         s.gc_cb = cb;
+        dead
     });
+    release(dead);
+}
+
+/// the boxes the quarantine still holds: released by the interpreter (entry not live), memory still allocated
+fn quarantined(s: &State) -> Vec<(usize, u8)> {
+    s.heap.iter().filter(|(_, e)| !e.live).map(|(a, e)| (*a, e.ty)).collect()
+}
+
+fn release(dead: Vec<(usize, u8)>) {
+    for (addr, ty) in dead {
+        unsafe { crate::object::verif_release_quarantined(addr, ty) };
+    }
 }
 
 /// Reset the per-run state (output, counters, events, trace, budget) but keep the mode switches and the shadow heap.
@@ -252,22 +266,23 @@ pub fn alloc_free_totals() -> (u64, u64) {
 }
 /// Drop ledger entries of dead boxes (their memory stays quarantined, i.e. is leaked on purpose).
 pub fn forget_dead() {
-    // in quarantine mode the released boxes are still allocated: give their memory back now
-    let dead: Vec<(usize, u8)> = with(|s| {
-        let d: Vec<(usize, u8)> = if s.shadow == ShadowMode::Quarantine { s.heap.iter().filter(|(_, e)| !e.live).map(|(a, e)| (*a, e.ty)).collect() } else { Vec::new() };
+    // the boxes released under the quarantine are still allocated: give their memory back now
+    let dead = with(|s| {
+        let d = quarantined(s);
         s.heap.retain(|_, e| e.live);
         d
     });
-    for (addr, ty) in dead {
-        unsafe { crate::object::verif_release_quarantined(addr, ty) };
-    }
+    release(dead);
 }
 pub fn clear_ledger() {
-    with(|s| {
+    let dead = with(|s| {
+        let d = quarantined(s);
         s.heap.clear();
         s.allocs = 0;
         s.frees = 0;
+        d
     });
+    release(dead);
 }
 
 /// Address of the box a heap value points to
